@@ -570,6 +570,7 @@ theorem inv_step {s : St} (o : Op) (h : Inv04 s) : Inv04 (step s o).1 := by
     · exact h
   | chanClose c => exact inv_ofM h (fun _ e => Inv04.of_frame (frame_setChanClosed e) h)
   | chanOpen c => exact inv_ofM h (fun _ e => Inv04.of_frame (frame_setChanClosed e) h)
+  | timeoutOnClose c seq => exact inv_ofM h (fun _ e => by unfold timeoutOnClose at e; split at e <;> cases e; exact h)
   | finalize a rid ph t src seq => exact inv_ofM h (fun _ e => inv_msgFinalize h e)
   | finalizeByKey a b => exact inv_ofM h (fun _ e => inv_msgFinalizeByKey h e)
   | fulfill a id fee => exact inv_ofM h (fun _ e => inv_msgFulfill h e)
